@@ -34,7 +34,7 @@ Definition onode_eqb (a b : option node) : bool :=
 Definition op_eqb (a b : op) : bool :=
   match a, b with
   | Mkdir p, Mkdir q | Create p, Create q | Unlink p, Unlink q | Rmdir p, Rmdir q => path_eqb p q
-  | Write p c, Write q d => path_eqb p q && content_eqb c d
+  | Write p c, Write q d | Replace p c, Replace q d => path_eqb p q && content_eqb c d
   | _, _ => false
   end.
 Definition result_eqb (a b : result) : bool :=
@@ -90,10 +90,12 @@ Definition static_ok (k : case) : bool :=
   | _ => forallb (fun p => negb (excepted (k_hdr k) p)) (changed_paths k)
   end.
 
-(* refusal / failed compile: nothing changes *)
+(* refusal / failed compile: nothing changes — also when the failure is the unparsable function-tag file, for the
+   variants that read the tag files before the first mutation *)
 Definition noop_ok (k : case) : bool :=
   match k_out k, k_res k with
   | Success _, RRefused => match changed_paths k with [] => true | _ => false end
+  | Success _, RTagErr => if v_tags_early (k_v k) then match changed_paths k with [] => true | _ => false end else true
   | Success _, _ => true
   | _, _ => match changed_paths k with [] => true | _ => false end
   end.
